@@ -19,23 +19,62 @@ import itertools
 import numpy as np
 import scipy.sparse as sp
 
-import quimb as qu
 import quimb.core as qc
 import quimb.calc as qcalc
 import quimb.gen.operators as qops
 
 from qv import poly as P
 from qv import ref
-from qv.harness import obligation, Skip
+from qv.harness import obligation
 
 PROP = "C15"
 META = {
     "bounds": {
-        "quick": {},
-        "thorough": {},
+        "quick": {
+            "dims (value level)": "12 lists over {1,2,3} of length <= 3 (+ (2,1,3,2) for ikron), D <= 24; every index subset in every order",
+            "entries": "all matrix / ket / bra entries symbolic (conj-pair complex)",
+            "kron operands": "<= 3 factors, shapes over {1,2,3} incl. kets, bras, rectangular",
+            "ownership (symbolic entries)": "ri, rf symbolic, every range 0 <= ri < rf <= D, D <= 12 (kron), D <= 12 (ikron)",
+            "ownership arithmetic (recorder operands)": "ri, rf symbolic and NOT enumerated; 10 factor-dimension lists up to (13,2,7,3,10) and (2,)*6",
+            "dim_map": "dims arrays of shape (3), (2,2), (3,2), (1,3), (2,2,2), (2,3,2); 2 coordinate tuples of unbounded symbolic integers; strict / cyclic / trim / cyclic+trim",
+            "dim_compress": "n <= 3 subsystems, symbolic dims 2..6 (1..3 with a size-1 subsystem), every index subset",
+            "sparse": "csr, csc, coo, bsr; fixed dyadic entries in symbolic mode (scipy.sparse cannot hold symbols), random entries in the numeric run; D <= 16",
+            "hamiltonians": "ham_heis (+field, cyclic), ham_ising, ham_XY, ham_XXZ, ham_j1j2 (+cyclic), ham_mbl with n=3 (n=2 for one), ham_heis_2D 2x2 and 1x3: every range of rows",
+        },
+        "thorough": {
+            "dims (value level)": "all 39 lists over {1,2,3} of length <= 3 plus (2,1,3,2), (2,2,2,2), (1,3,2,2); D <= 27; every index subset in every order",
+            "kron operands": "<= 4 factors, D <= 27",
+            "ownership (symbolic entries)": "every range, D <= 27 (kron), D <= 24 (ikron)",
+            "ownership arithmetic (recorder operands)": "19 factor-dimension lists up to (2,)*10, ri, rf not enumerated",
+            "dim_map": "adds shapes (5), (2,3), (2,1,2), (2,2,2,2)",
+            "dim_compress": "n <= 4 for dims 2..6; n <= 3 with size-1 subsystems",
+            "sparse": "adds 4-factor products (D = 16), (2,2,2,2) partial traces",
+            "hamiltonians": "n = 4 for every builder, n = 5 for ham_heis with field and cyclic ham_j1j2, ham_heis_2D 2x2 cyclic",
+        },
     },
-    "outside": [],
-    "assumptions": [],
+    "outside": [
+        "floating point rounding (identities are exact polynomial identities; sparse / Hamiltonian runs use exactly representable entries)",
+        "scipy.sparse kernels on symbolic entries (object dtype unsupported): sparse inputs are checked on concrete entries only",
+        "numba compilation of _kron_dense_numba (the Python source is what is executed); parallel=True reductions (C16)",
+        "partial_transpose of sparse inputs (not supported by quimb: dense only)",
+        "partial_trace of bras (documented domain: ket or density operator); the shape of permute(bra) (values checked only)",
+        "ikron with one operator spread over NON-adjacent subsystems (not supported by ikron; pkron is checked instead); "
+        "several multi-subsystem operators in one ikron call",
+        "negative ('auto-place') dimensions in dim_compress; total dimension D = 1 for partial_trace / partial_transpose "
+        "(a 1x1 array is both a ket and an operator)",
+        "Hermiticity is required of sparse density operators (quimb's sparse partial trace fills the lower triangle by conjugation)",
+        "correctness of the full Hamiltonians themselves (C19); here only rows-of-the-full-object",
+    ],
+    "assumptions": [
+        "dtype shims (object arrays only): common_type(...) of symbolic arrays is `object`; qarray.astype(float/complex dtype) is the "
+        "identity on exact symbolic scalars",
+        "realify_scalar (dropping a numerically negligible imaginary part) is the identity on exact scalars (qv/stubs.py)",
+        "partial_trace ignores the order of `keep` (subsystems stay in ascending order): quimb's own test "
+        "test_partial_trace_order_doesnt_matter; ikron likewise sorts its indices",
+        "a 1x1 operator given with several size-1 target subsystems is read by ikron as cyclic placement, not as an overlay",
+        "symbolic ri, rf are concretised where the real code slices with them (solver-driven enumeration of every feasible range); "
+        "lru_cache'd Hamiltonian builders need hashable ints, so ri, rf are concretised before the call",
+    ],
 }
 
 # ---------------------------------------------------------------------- dtype shims
@@ -63,6 +102,13 @@ qc.qarray.astype = _qarray_astype
 
 
 # ---------------------------------------------------------------------- references
+
+def _same(mk, label, a, b):
+    """structural equality stated through mk.check, so that a failure on a symbolic path carries
+    the path's model (ri, rf, dims ...) into the replay"""
+    ok = a == b
+    mk.check(bool(ok), label if ok else f"{label}: {a!r} != {b!r}"[:300])
+
 
 def prod(xs):
     r = 1
@@ -174,11 +220,12 @@ def ordered_subsets(n, rmin=1, rmax=None):
 _ALL3 = [d for n in (1, 2, 3) for d in itertools.product((1, 2, 3), repeat=n)]
 _QUICK_DIMS = [(2,), (3,), (2, 2), (2, 3), (3, 2), (1, 2), (2, 1), (2, 2, 2), (2, 3, 2), (3, 1, 2), (1, 2, 3), (2, 2, 3)]
 _LEN4 = (2, 1, 3, 2)
+_LEN4_MORE = [(2, 2, 2, 2), (1, 3, 2, 2)]
 
 
 def _dims_params(extra_quick=(), skip=lambda d: False, len4_quick=False):
     out = []
-    for d in _ALL3 + [_LEN4]:
+    for d in _ALL3 + [_LEN4] + _LEN4_MORE:
         if skip(d):
             continue
         q = d in _QUICK_DIMS or d in extra_quick or (len4_quick and d == _LEN4)
@@ -218,7 +265,7 @@ def kron_explicit(mk, shapes):
     ops = [mk.array(f"K{i}", s, "cplx") for i, s in enumerate(_KRON_SHAPES[shapes])]
     want = ref.kron(*ops)
     got = qc.kron(*ops)
-    mk.same("shape", tuple(got.shape), tuple(want.shape))
+    _same(mk, "shape", tuple(got.shape), tuple(want.shape))
     mk.eq("kron(*ops)", got, want)
     if len(ops) >= 2:
         acc = qc.qarray(ops[0])
@@ -280,6 +327,10 @@ def ikron_overlay(mk, dims):
     ops = {}
     for blk in _blocks(n):
         k = prod(dims[s] for s in blk)
+        if k == 1:
+            # a 1x1 operator on several size-1 subsystems also fits every single one of them: ikron
+            # reads that as cyclic placement (checked in ikron_sites), not as an overlay
+            continue
         if k not in ops:
             ops[k] = mk.array(f"O{k}", (k, k), "cplx")
         want = ref.embed(ops[k], dims, blk)
@@ -331,10 +382,10 @@ def permute_explicit(mk, dims):
     for perm in itertools.permutations(range(n)):
         nd = tuple(dims[k] for k in perm)
         got = qc.permute(M, dims, perm)
-        mk.same(f"op shape {perm}", tuple(got.shape), (D, D))
+        _same(mk, f"op shape {perm}", tuple(got.shape), (D, D))
         mk.eq(f"permute(op, {dims}, {perm})", got, ref_permute(M, dims, perm))
         gk = qc.permute(psi, dims, list(perm))
-        mk.same(f"ket shape {perm}", tuple(gk.shape), (D, 1))
+        _same(mk, f"ket shape {perm}", tuple(gk.shape), (D, 1))
         mk.eq(f"permute(ket, {dims}, {perm})", gk, ref_permute(psi, dims, perm))
         mk.eq(f"permute(bra, {dims}, {perm}) values", qc.permute(bra, dims, perm), ref_permute(bra, dims, perm))
         if D > 1:
@@ -373,7 +424,7 @@ def partial_trace_explicit(mk, dims):
     for keep in _keeps(n):
         want = ref_ptr(rho, dims, keep)
         got = qc.partial_trace(rho, dims, list(keep))
-        mk.same(f"shape keep={keep}", tuple(got.shape), tuple(want.shape))
+        _same(mk, f"shape keep={keep}", tuple(got.shape), tuple(want.shape))
         mk.eq(f"ptr(rho, {dims}, {keep})", got, want)
         wk = ref_ptr(pp, dims, keep)
         mk.eq(f"ptr(ket, {dims}, {keep}) == ptr(projector)", qc.partial_trace(psi, dims, keep), wk)
@@ -405,7 +456,7 @@ def ptr_adjoint_of_embedding(mk, dims):
             mk.eq(f"Tr[pkron(A,{keep}) rho] == Tr[A ptr(rho,{keep})]", ref.trace(ref.matmul(E, rho)), rhs)
             mk.eq(f"expec(pkron(A,{keep}), rho)", qc.expectation(E, rho), rhs)
             contiguous = list(keep) == list(range(keep[0], keep[-1] + 1))
-            if contiguous:
+            if contiguous and (k > 1 or len(keep) == 1):   # (1x1 on several size-1 sites = cyclic placement)
                 E2 = qc.ikron(A, dims, list(keep))
                 mk.eq(f"Tr[ikron(A,{keep}) rho] == Tr[A ptr(rho,{keep})]", qc.trace(E2 @ rho), rhs)
             # reversed keep: same reduced state (set semantics), same identity
@@ -415,6 +466,48 @@ def ptr_adjoint_of_embedding(mk, dims):
             want_k = ref.matmul(ref.dag(psi), ref.matmul(E, psi))
             mk.eq(f"<psi|pkron(A,{keep})|psi> == Tr[A ptr(psi)]", ref.trace(ref.matmul(A, redk)), want_k)
             mk.eq(f"expec(psi, pkron(A,{keep}))", qc.expectation(psi, E), want_k)
+
+
+# ---------------------------------------------------------------------- nested dims + coordinates
+
+_C2D = {
+    "2x2a": [[2, 1], [3, 2]],
+    "2x2b": [[2, 3], [2, 2]],
+    "np2x2": np.array([[2, 2], [2, 2]]),
+    "3x2": [[2, 1], [1, 2], [2, 1]],
+    "3d": [[[2, 1], [2, 1]], [[1, 2], [1, 3]]],
+}
+
+
+@obligation(PROP, params=[{"case": c, "_tiers": ("quick", "thorough") if c in ("2x2a", "np2x2", "3x2") else ("thorough",)} for c in _C2D],
+            exc_is_violation=True)
+def nested_dims_coordinates(mk, case):
+    """ikron / partial_trace with multi-dimensional `dims` and coordinate tuples == the flat
+    (row-major) subsystem list"""
+    mk.encodes(qc.ikron, qc.partial_trace, qc.dim_map, qc._dim_map_2d, qc._dim_map_nd, qc._find_shape_of_nested_int_array)
+    dims = _C2D[case]
+    arr = np.asarray(dims)
+    shape = arr.shape
+    fd = tuple(int(x) for x in arr.reshape(-1))
+    D = prod(fd)
+    coords = list(itertools.product(*[range(s) for s in shape]))
+    A = _site_ops(mk, fd)
+    rho = mk.array("rho", (D, D), "cplx")
+    psi = mk.array("psi", (D, 1), "cplx")
+    pp = proj(psi)
+    for c in coords:
+        f = flat(c, shape)
+        mk.eq(f"ikron(A, nested, [{c}])", qc.ikron(A[f], dims, [c]), _ikron_want(fd, {f: A[f]}, A[f]))
+        mk.eq(f"ptr(rho, nested, [{c}])", qc.partial_trace(rho, dims, [c]), ref_ptr(rho, fd, (f,)))
+    pairs = list(itertools.permutations(coords, 2))
+    if len(pairs) > 12:
+        pairs = pairs[::5]
+    for c1, c2 in pairs:
+        f1, f2 = flat(c1, shape), flat(c2, shape)
+        mk.eq(f"ikron([A,B], nested, [{c1},{c2}])", qc.ikron([A[f1], A[f2]], dims, [c1, c2]),
+              _ikron_want(fd, {f1: A[f1], f2: A[f2]}, A[f1]))
+        mk.eq(f"ptr(rho, nested, [{c1},{c2}])", qc.partial_trace(rho, dims, [c1, c2]), ref_ptr(rho, fd, (f1, f2)))
+        mk.eq(f"ptr(ket, nested, [{c1},{c2}])", qc.partial_trace(psi, dims, [c1, c2]), ref_ptr(pp, fd, (f1, f2)))
 
 
 # ---------------------------------------------------------------------- itrace
@@ -451,7 +544,7 @@ def itrace_explicit(mk, case):
     out = tuple(l for l in labels if l.startswith("k"))
     want = ref.sum_of_products([(T, tuple(labels))], out)
     got = qc.itrace(T, axes)
-    mk.same("shape", tuple(np.shape(got)), tuple(want.shape))
+    _same(mk, "shape", tuple(np.shape(got)), tuple(want.shape))
     mk.eq(f"itrace({shape}, {axes})", got, want)
 
 
@@ -514,7 +607,7 @@ def dynal_digits(mk, dims):
     strides = [prod(dims[i + 1:]) for i in range(n)]
     x = mk.int("x", 0, D - 1)
     dig = list(qc.dynal(x, dims))
-    mk.same("one digit per base", len(dig), n)
+    _same(mk, "one digit per base", len(dig), n)
     tot = 0
     for i, (d, b) in enumerate(zip(dig, dims)):
         mk.check(d >= 0, f"digit {i} >= 0")
@@ -590,9 +683,9 @@ def ownership_row_spans(mk, dims):
         X = qc.kron(*ops, ownership=(ri, rf))
     finally:
         qc._kron_core = real_core
-    mk.same("one (possibly sliced) operand per factor", len(X.ops), n)
+    _same(mk, "one (possibly sliced) operand per factor", len(X.ops), n)
     m = sum(1 for o in X.ops if o.sliced)
-    mk.same("sliced operands form a prefix", [o.sliced for o in X.ops], [True] * m + [False] * (n - m))
+    _same(mk, "sliced operands form a prefix", [o.sliced for o in X.ops], [True] * m + [False] * (n - m))
     start = 0
     stop = 0
     for k in range(m):
@@ -648,6 +741,9 @@ _OWN_SHAPES = {
     "op332": [(3, 3), (3, 3), (2, 2)],
     "op44": [(4, 4), (4, 4)],
     "op234": [(2, 2), (3, 3), (4, 4)],
+    "op333": [(3, 3), (3, 3), (3, 3)],
+    "op1221": [(1, 1), (2, 2), (2, 2), (1, 1)],
+    "kets2222": [(2, 1), (2, 1), (2, 1), (2, 1)],
 }
 _OWN_QUICK = ("op22", "op23", "op32", "op13", "op31", "op4", "op222", "op232", "op312", "kets23", "kets222", "rect")
 
@@ -665,8 +761,7 @@ def kron_ownership_rows(mk, shapes):
     ri, rf = _draw_range(mk, D)
     got = qc.kron(*ops, ownership=(ri, rf))
     a, b = int(ri), int(rf)
-    mk.same(f"shape of rows [{a},{b})", tuple(got.shape), (b - a, full.shape[1]))
-    mk.eq(f"kron(ownership=({a},{b})) == full[{a}:{b}]", got, full[a:b, :])
+    _eqs(mk, f"kron(ownership=({a},{b})) == full[{a}:{b}]", got, full[a:b, :])
 
 
 @obligation(PROP, params=[{"shapes": k} for k in ("op23", "op222", "kets23")], exc_is_violation=True)
@@ -709,8 +804,7 @@ def ikron_ownership_rows(mk, case):
     ri, rf = _draw_range(mk, D)
     got = qc.ikron(ops, dims, inds, ownership=(ri, rf))
     a, b = int(ri), int(rf)
-    mk.same(f"shape of rows [{a},{b})", tuple(got.shape), (b - a, D))
-    mk.eq(f"ikron(ownership=({a},{b})) == full[{a}:{b}]", got, full[a:b, :])
+    _eqs(mk, f"ikron(ownership=({a},{b})) == full[{a}:{b}]", got, full[a:b, :])
 
 
 # ---------------------------------------------------------------------- dim_map
@@ -725,7 +819,13 @@ def _nested(shape, vals):
 _DM_SHAPES = [(3,), (5,), (2, 2), (3, 2), (2, 3), (2, 2, 2), (2, 3, 2), (1, 3), (2, 1, 2), (2, 2, 2, 2)]
 _DM_QUICK = [(3,), (2, 2), (3, 2), (2, 2, 2), (1, 3), (2, 3, 2)]
 _DM_PARAMS = [{"shape": s, "mode": m, "_tiers": ("quick", "thorough") if s in _DM_QUICK else ("thorough",)}
-              for s in _DM_SHAPES for m in ("strict", "cyclic", "trim", "cyclic+trim")]
+              for s in _DM_SHAPES for m in ("strict", "cyclic", "trim", "cyclic+trim") if not (len(s) == 1 and m == "cyclic+trim")]
+
+
+@obligation(PROP, params=[{"shape": s, "mode": "cyclic+trim"} for s in _DM_SHAPES if len(s) == 1], exc_is_violation=True)
+def dim_map_1d_cyclic_overrides_trim(mk, shape, mode):
+    """1-D dims with cyclic=True and trim=True: documented as "trim ... overridden by cyclic"."""
+    dim_map_coordinates(mk, shape, mode)
 
 
 @obligation(PROP, params=_DM_PARAMS, exc_is_violation=True, max_paths=4000)
@@ -752,18 +852,18 @@ def dim_map_coordinates(mk, shape, mode):
         raised = True
     inr = [all(bool((0 <= c) & (c < s)) for c, s in zip(coo, shape)) for coo in coos]
     if raised:
-        mk.same("rejected only in strict mode", mode, "strict")
-        mk.same("rejected only when a coordinate is out of range", all(inr), False)
+        _same(mk, "rejected only in strict mode", mode, "strict")
+        _same(mk, "rejected only when a coordinate is out of range", all(inr), False)
         return
-    mk.same("flattened dims", tuple(fd), tuple(vals))
+    _same(mk, "flattened dims", tuple(fd), tuple(vals))
     if cyclic:
         want = [sum((c % s) * m for c, s, m in zip(coo, shape, strides)) for coo in coos]
     elif trim:
         want = [sum(c * m for c, m in zip(coo, strides)) for coo, ok in zip(coos, inr) if ok]
     else:
-        mk.same("strict mode accepted only in-range coordinates", all(inr), True)
+        _same(mk, "strict mode accepted only in-range coordinates", all(inr), True)
         want = [sum(c * m for c, m in zip(coo, strides)) for coo in coos]
-    mk.same("number of indices", len(inds), len(want))
+    _same(mk, "number of indices", len(inds), len(want))
     for k, (g, w) in enumerate(zip(inds, want)):
         mk.check(g == w, f"index {k} == sum (c mod s)*stride")
         mk.check((0 <= g) & (g < nsites), f"index {k} addresses a subsystem")
@@ -776,21 +876,13 @@ def _dc_params():
     for n in (1, 2, 3, 4):
         for r in range(0, n + 1):
             for inds in itertools.combinations(range(n), r):
-                for lo in (2, 1):
-                    q = n <= 3
-                    out.append({"n": n, "inds": inds, "lo": lo, "_tiers": ("quick", "thorough") if q else ("thorough",)})
+                out.append({"n": n, "inds": inds, "_tiers": ("quick", "thorough") if n <= 3 else ("thorough",)})
     return out
 
 
-@obligation(PROP, params=_dc_params(), exc_is_violation=True, max_paths=4000)
-def dim_compress_products(mk, n, inds, lo):
-    """dim_compress(dims, inds) on symbolic subsystem dimensions (lo <= d <= 6): the compressed
-    dims are the products over maximal runs of targeted / untargeted subsystems (size-1 runs
-    vanish), so the total product and the targeted product are preserved and the marks are exact"""
-    mk.encodes(qc.dim_compress, qc._dim_compressor)
-    dims = [mk.int(f"d{i}", lo, 6) for i in range(n)]
-    nd, ni = qc.dim_compress(dims, inds if len(inds) != 1 or n % 2 else inds[0])
-    # reference: maximal runs
+def _dim_compress_goals(mk, dims, inds, arg, alternate):
+    nd, ni = qc.dim_compress(dims, arg)
+    # reference: products over maximal runs of targeted / untargeted subsystems; size-1 runs vanish
     runs = []
     for i, d in enumerate(dims):
         f = i in inds
@@ -811,11 +903,405 @@ def dim_compress_products(mk, n, inds, lo):
     gm = 1
     for i in ni:
         gm = gm * nd[i]
-    mk.check(gt == tot, "product of compressed dims == product of dims")
-    mk.check(gm == tgt, "product of marked compressed dims == product of targeted dims")
-    mk.same("number of compressed blocks", len(nd), len(runs))
-    mk.same("marked blocks", tuple(ni), tuple(k for k, (p, f) in enumerate(runs) if f))
-    for k, (g, (p, f)) in enumerate(zip(nd, runs)):
-        mk.check(g == p, f"block {k} is the product over run {k}")
-    if lo >= 2:
-        mk.same("marks alternate (documented guarantee, dims >= 2)", all(b - a == 2 for a, b in zip(ni, ni[1:])), True)
+    tag = f"inds={tuple(inds)}"
+    mk.check(gt == tot, f"product of compressed dims == product of dims ({tag})")
+    mk.check(gm == tgt, f"product of marked compressed dims == product of targeted dims ({tag})")
+    if runs:
+        _same(mk, f"number of compressed blocks ({tag})", len(nd), len(runs))
+        _same(mk, f"marked blocks ({tag})", tuple(ni), tuple(k for k, (p, f) in enumerate(runs) if f))
+        for k, (g, (p, f)) in enumerate(zip(nd, runs)):
+            mk.check(g == p, f"block {k} is the product over run {k} ({tag})")
+    if alternate:
+        _same(mk, f"marks alternate (documented guarantee) ({tag})", all(b - a == 2 for a, b in zip(ni, ni[1:])), True)
+
+
+@obligation(PROP, params=_dc_params(), exc_is_violation=True, max_paths=4000)
+def dim_compress_products(mk, n, inds):
+    """dim_compress(dims, inds) on symbolic subsystem dimensions 2 <= d <= 6: the compressed dims are
+    the products over maximal runs of targeted / untargeted subsystems, so the total product and
+    the targeted product are preserved, the marks are exact and alternate"""
+    mk.encodes(qc.dim_compress, qc._dim_compressor)
+    dims = [mk.int(f"d{i}", 2, 6) for i in range(n)]
+    _dim_compress_goals(mk, dims, inds, inds if len(inds) != 1 or n % 2 else inds[0], True)
+
+
+@obligation(PROP, params=[{"n": 1}, {"n": 2}, {"n": 3}], exc_is_violation=True, max_paths=8000)
+def dim_compress_unit_dims(mk, n):
+    """same with size-1 subsystems allowed (1 <= d <= 3, at least one d == 1), every index subset"""
+    mk.encodes(qc.dim_compress, qc._dim_compressor)
+    dims = [mk.int(f"d{i}", 1, 3) for i in range(n)]
+    some_one = dims[0] == 1
+    for d in dims[1:]:
+        some_one = some_one | (d == 1)
+    if mk.sym:
+        mk.assume(some_one)
+    elif not some_one:
+        dims[-1] = 1
+    subsets = [s for r in range(n + 1) for s in itertools.combinations(range(n), r)]
+    inds = mk.choice("subset", subsets)
+    _dim_compress_goals(mk, dims, inds, inds, False)
+
+
+# ====================================================================== sparse inputs
+# scipy.sparse cannot hold symbolic scalars.  In symbolic mode the entries are therefore fixed
+# dyadic rationals (all arithmetic exact in binary floating point, goals compared exactly) and
+# only the structural inputs (ownership range) are symbolic; the numeric cross-run repeats the
+# harness with random entries.
+
+_FMTS = ("csr", "csc", "coo", "bsr")
+
+
+def _cvals(mk, name, shape, kind="cplx", herm=False):
+    import random
+    import zlib
+    rng = random.Random(zlib.crc32(name.encode()))
+    shape = tuple(shape)
+    if mk.sym:
+        q = lambda: rng.choice([-1, 1]) * rng.randint(1, 12) / 8
+        a = np.empty(shape, dtype=complex)
+        for idx in np.ndindex(*shape):
+            a[idx] = complex(q(), q() if kind == "cplx" else 0.0)
+    else:
+        a = np.asarray(mk.array(name, shape, kind), dtype=complex)
+        for idx in np.ndindex(*shape):
+            rng.random(), rng.random()
+    # fixed sparsity pattern (same in both modes)
+    for idx in np.ndindex(*shape):
+        if rng.random() < 0.3:
+            a[idx] = 0.0
+    if herm:
+        a = (a + a.conj().T) / 2
+    if not a.any():
+        a[(0,) * a.ndim] = 1.0
+    return a
+
+
+def _sp(a, fmt):
+    return qc.sparse_matrix(a, stype=fmt)
+
+
+def _dense(x):
+    return x.toarray() if sp.issparse(x) else np.asarray(x)
+
+
+@obligation(PROP, params=[{"fmt": f} for f in _FMTS], exc_is_violation=True)
+def sparse_kron_formats(mk, fmt):
+    """kron of sparse operands (every input format, every requested output format, coo_build,
+    mixed dense/sparse, kets) == explicit product of the dense operands"""
+    mk.encodes(qc.kron, qc.kron_sparse, qc.kron_dispatch, qc._kron_core, qc.sparse_matrix)
+    for shapes in ([(2, 2), (3, 3)], [(2, 2), (2, 2), (3, 3)], [(2, 1), (3, 1)], [(2, 3), (3, 2)]):
+        ops = [_cvals(mk, f"S{i}{s[0]}{s[1]}", s) for i, s in enumerate(shapes)]
+        want = ref.kron(*ops)
+        sops = [_sp(o, fmt) for o in ops]
+        got = qc.kron(*sops)
+        _same(mk, f"sparse in -> sparse out {shapes}", sp.issparse(got), True)
+        mk.eq(f"kron(*{fmt}) {shapes}", _dense(got), want)
+        for out in _FMTS:
+            g = qc.kron(*sops, stype=out)
+            _same(mk, f"stype={out} honoured {shapes}", g.format, out)
+            mk.eq(f"kron(*{fmt}, stype={out}) {shapes}", _dense(g), want)
+        g = qc.kron(*sops, coo_build=True)
+        _same(mk, f"coo_build returns csr {shapes}", g.format, "csr")
+        mk.eq(f"kron(*{fmt}, coo_build=True) {shapes}", _dense(g), want)
+        mk.eq(f"kron(sparse, dense...) {shapes}", _dense(qc.kron(sops[0], *ops[1:])), want)
+        mk.eq(f"kron(dense, sparse...) {shapes}", _dense(qc.kron(ops[0], *sops[1:])), want)
+        acc = sops[0]
+        for o in sops[1:]:
+            acc = acc & o
+        mk.eq(f"a & b {shapes}", _dense(acc), want)
+
+
+def _eqs(mk, label, got, want):
+    """shape goal, then entry-wise goal when the sizes agree (a wrong shape must not hide later goals)"""
+    got, want = _dense(got), np.asarray(want)
+    _same(mk, f"shape: {label}", tuple(np.shape(got)), tuple(want.shape))
+    if np.size(got) == want.size:
+        mk.eq(label, got, want)
+
+
+_SOWN = {
+    "sp23": ([(2, 2), (3, 3)], "ss"),
+    "sp32": ([(3, 3), (2, 2)], "ss"),
+    "sp222": ([(2, 2), (2, 2), (2, 2)], "sss"),
+    "ds23": ([(2, 2), (3, 3)], "ds"),
+    "dss": ([(2, 2), (2, 2), (2, 2)], "dss"),
+    "kets": ([(2, 1), (3, 1)], "ss"),
+    "sp232": ([(2, 2), (3, 3), (2, 2)], "sss"),
+    "sp2222": ([(2, 2), (2, 2), (2, 2), (2, 2)], "ssss"),
+    # sparse (x) dense: the intermediate product is built in 'bsr' format
+    "sd23": ([(2, 2), (3, 3)], "sd"),
+    "ssd": ([(2, 2), (2, 2), (2, 2)], "ssd"),
+    "sds": ([(2, 2), (2, 2), (2, 2)], "sds"),
+}
+_SOWN_QUICK = ("sp23", "sp222", "ds23", "kets", "sd23", "ssd")
+_SOWN_BSR_MID = ("sd23", "ssd", "sds")
+
+
+def _sparse_kron_ownership(mk, fmt, case):
+    shapes, kinds = _SOWN[case]
+    ops = [_cvals(mk, f"S{i}{s[0]}{s[1]}", s) for i, s in enumerate(shapes)]
+    full = ref.kron(*ops)
+    D = full.shape[0]
+    sops = [_sp(o, fmt) if k == "s" else o for o, k in zip(ops, kinds)]
+    ri, rf = _draw_range(mk, D)
+    got = qc.kron(*sops, ownership=(ri, rf))
+    a, b = int(ri), int(rf)
+    _eqs(mk, f"kron({kinds}:{fmt}, ownership=({a},{b}))", got, full[a:b, :])
+    g = qc.kron(*sops, ownership=(a, b), stype="coo")
+    _eqs(mk, f"kron({kinds}:{fmt}, ownership=({a},{b}), stype=coo)", g, full[a:b, :])
+    g = qc.kron(*sops, ownership=(a, b), coo_build=True)
+    _eqs(mk, f"kron({kinds}:{fmt}, ownership=({a},{b}), coo_build)", g, full[a:b, :])
+
+
+@obligation(PROP, params=[{"fmt": f, "case": c, "_tiers": ("quick", "thorough") if c in _SOWN_QUICK and f != "csc" else ("thorough",)}
+                          for f in ("csr", "csc", "coo") for c in _SOWN if c not in _SOWN_BSR_MID],
+            exc_is_violation=True, max_paths=4000, wall_s=600, timeout_s=900)
+def sparse_kron_ownership(mk, fmt, case):
+    """kron(*sparse/dense ops, ownership=(ri, rf)) == rows [ri, rf) of the explicit product, for every
+    feasible range (symbolic ri, rf enumerated by the solver through the real slicing code);
+    default output format, stype='coo' and coo_build=True.  csr / csc / coo operands."""
+    mk.encodes(qc.kron, qc.gen_ops_maybe_sliced, qc.gen_matching_dynal, qc.kron_sparse)
+    _sparse_kron_ownership(mk, fmt, case)
+
+
+@obligation(PROP, params=[{"fmt": "bsr", "case": c, "_tiers": ("quick", "thorough") if c in _SOWN_QUICK else ("thorough",)}
+                          for c in ("sp23", "sp222", "kets")]
+            + [{"fmt": "csr", "case": c, "_tiers": ("quick", "thorough") if c in _SOWN_QUICK else ("thorough",)} for c in _SOWN_BSR_MID],
+            exc_is_violation=True, max_paths=4000, wall_s=600, timeout_s=900)
+def sparse_kron_ownership_bsr(mk, fmt, case):
+    """same with 'bsr' operands, and with sparse (x) dense operands (whose product is built as 'bsr')"""
+    mk.encodes(qc.kron, qc.gen_ops_maybe_sliced, qc.gen_matching_dynal, qc.kron_sparse)
+    _sparse_kron_ownership(mk, fmt, case)
+
+
+@obligation(PROP, params=[{"fmt": f} for f in _FMTS], exc_is_violation=True)
+def sparse_ikron_pkron(mk, fmt):
+    """ikron / pkron with sparse operators (or sparse=True) == the dense embedding"""
+    mk.encodes(qc.ikron, qc.pkron, qc.permute, qc._permute_sparse, qc.identity, qc._identity_sparse)
+    for dims in ((2, 3, 2), (3, 1, 2)):
+        n = len(dims)
+        A = [_cvals(mk, f"A{s}{d}", (d, d)) for s, d in enumerate(dims)]
+        SA = [_sp(a, fmt) for a in A]
+        for inds in ordered_subsets(n):
+            want = _ikron_want(dims, {s: A[s] for s in inds}, A[0])
+            g = qc.ikron([SA[s] for s in inds], dims, inds)
+            _same(mk, f"sparse out {dims} {inds}", sp.issparse(g), True)
+            _eqs(mk, f"ikron({fmt} ops, {dims}, {inds})", g, want)
+            g = qc.ikron([SA[s] for s in inds], dims, inds, stype=fmt)
+            _same(mk, f"stype honoured {dims} {inds}", g.format, fmt)
+            _eqs(mk, f"ikron({fmt} ops, stype={fmt}) {dims} {inds}", g, want)
+            if prod(dims[s] for s in range(n) if s not in inds) > 1:
+                # dense operators, identities requested sparse
+                g = qc.ikron([A[s] for s in inds], dims, inds, sparse=True, stype=fmt)
+                _same(mk, f"sparse=True: stype honoured {dims} {inds}", g.format, fmt)
+                _eqs(mk, f"ikron(dense ops, sparse=True, stype={fmt}) {dims} {inds}", g, want)
+            _eqs(mk, f"ikron(coo_build) {dims} {inds}", qc.ikron([SA[s] for s in inds], dims, inds, coo_build=True), want)
+        ops = {}
+        for inds in ordered_subsets(n):
+            k = prod(dims[s] for s in inds)
+            if k not in ops:
+                ops[k] = _cvals(mk, f"Q{k}", (k, k))
+            g = qc.pkron(_sp(ops[k], fmt), dims, inds)
+            _eqs(mk, f"pkron({fmt}, {dims}, {inds})", g, ref.embed(ops[k], dims, inds))
+        # overlay of one sparse operator on adjacent subsystems
+        for blk in _blocks(n):
+            k = prod(dims[s] for s in blk)
+            _eqs(mk, f"overlay {fmt} {dims} {blk}", qc.ikron(_sp(ops[k], fmt), dims, list(blk)), ref.embed(ops[k], dims, blk))
+
+
+@obligation(PROP, params=[{"call": c} for c in ("kron_stype", "kron_coo_build", "ikron_sparse_stype", "ikron_sparse_coo_build")],
+            exc_is_violation=True)
+def dense_operands_with_sparse_options(mk, call):
+    """sparse-output options together with operands that are all dense (documented: `stype` is the
+    format "if resultant object is sparse", `coo_build` "only for sparse matrices in the first
+    place"): the value must still be the explicit product"""
+    mk.encodes(qc.kron, qc.ikron)
+    A = mk.array("A", (2, 2), "cplx")
+    B = mk.array("B", (3, 3), "cplx")
+    want = ref.kron(A, B)
+    if call == "kron_stype":
+        g = qc.kron(A, B, stype="csr")
+    elif call == "kron_coo_build":
+        g = qc.kron(A, B, coo_build=True)
+    elif call == "ikron_sparse_stype":
+        g = qc.ikron([A, B], [2, 3], [0, 1], sparse=True, stype="csr")
+    else:
+        g = qc.ikron([A, B], [2, 3], [0, 1], sparse=True, coo_build=True)
+    mk.eq(call, _dense(g), want)
+
+
+_SIOWN = [("d222_i1", "csr"), ("d222_i02", "csr"), ("d232_i1", "csc"), ("d23_i01", "coo"), ("d222_i20", "coo"),
+          ("d213_i1", "csr"), ("d2222_i12", "csr")]
+
+
+def _sparse_ikron_ownership(mk, case, fmt):
+    dims, inds = _IOWN[case]
+    A = [_cvals(mk, f"A{s}{d}", (d, d)) for s, d in enumerate(dims)]
+    full = _ikron_want(dims, {s: A[s] for s in inds}, A[0])
+    D = prod(dims)
+    ri, rf = _draw_range(mk, D)
+    got = qc.ikron([_sp(A[s], fmt) for s in inds], dims, inds, ownership=(ri, rf))
+    a, b = int(ri), int(rf)
+    _eqs(mk, f"ikron({fmt}, ownership=({a},{b}))", got, full[a:b, :])
+    if prod(dims[s] for s in range(len(dims)) if s not in inds) > 1:
+        g = qc.ikron([A[s] for s in inds], dims, inds, sparse=True, stype="coo", coo_build=True, ownership=(a, b))
+        _eqs(mk, f"ikron(dense, sparse=True, coo_build, ownership=({a},{b}))", g, full[a:b, :])
+
+
+@obligation(PROP, params=[{"case": c, "fmt": f, "_tiers": ("quick", "thorough") if c != "d2222_i12" else ("thorough",)} for c, f in _SIOWN],
+            exc_is_violation=True, max_paths=4000, wall_s=600, timeout_s=900)
+def sparse_ikron_ownership(mk, case, fmt):
+    """ikron(sparse ops, ..., ownership=(ri, rf)) == rows [ri, rf) of the dense embedding"""
+    mk.encodes(qc.ikron, qc.kron, qc.gen_ops_maybe_sliced)
+    _sparse_ikron_ownership(mk, case, fmt)
+
+
+@obligation(PROP, params=[{"case": "d222_i1", "fmt": "bsr"}, {"case": "d23_i01", "fmt": "bsr"}], exc_is_violation=True, max_paths=4000)
+def sparse_ikron_ownership_bsr(mk, case, fmt):
+    """same with 'bsr' operators"""
+    mk.encodes(qc.ikron, qc.kron, qc.gen_ops_maybe_sliced)
+    _sparse_ikron_ownership(mk, case, fmt)
+
+
+@obligation(PROP, params=[{"fmt": f} for f in _FMTS], exc_is_violation=True)
+def sparse_permute(mk, fmt):
+    """permute of sparse operators / kets == explicit index permutation"""
+    mk.encodes(qc.permute, qc._permute_sparse, qc.dot, qc.dot_sparse)
+    for dims in ((2, 3), (2, 3, 2), (2, 1, 3), (2, 2, 2, 2)):
+        D = prod(dims)
+        M = _cvals(mk, f"M{D}", (D, D))
+        psi = _cvals(mk, f"psi{D}", (D, 1))
+        perms = list(itertools.permutations(range(len(dims))))
+        if len(perms) > 6:
+            perms = perms[::5]
+        for perm in perms:
+            g = qc.permute(_sp(M, fmt), dims, perm)
+            _same(mk, f"sparse out {dims} {perm}", sp.issparse(g), True)
+            _eqs(mk, f"permute({fmt} op, {dims}, {perm})", g, ref_permute(M, dims, perm))
+            g = qc.permute(_sp(psi, fmt), dims, list(perm))
+            _eqs(mk, f"permute({fmt} ket, {dims}, {perm})", g, ref_permute(psi, dims, perm).reshape(D, 1))
+
+
+_SPTR_DIMS = [(2, 2), (2, 3), (3, 2), (2, 2, 2), (2, 3, 2), (3, 2, 2), (2, 2, 2, 2)]
+_SPTR_QUICK = [(2, 2), (2, 3), (2, 3, 2), (2, 2, 2)]
+
+
+def _sparse_ptr(mk, fmt, dims, keeps, ket=True):
+    D = prod(dims)
+    rho = _cvals(mk, f"rho{D}", (D, D), herm=True)
+    psi = _cvals(mk, f"psi{D}", (D, 1))
+    pp = proj(psi)
+    for keep in keeps:
+        want = ref_ptr(rho, dims, keep)
+        _eqs(mk, f"dense ptr(rho, {dims}, {keep})", qc.partial_trace(rho, dims, list(keep)), want)
+        _eqs(mk, f"ptr({fmt} rho, {dims}, {keep})", qc.partial_trace(_sp(rho, fmt), dims, list(keep)), want)
+        if ket:
+            _eqs(mk, f"ptr({fmt} ket, {dims}, {keep})", qc.partial_trace(_sp(psi, fmt), dims, keep), ref_ptr(pp, dims, keep))
+        if len(keep) == 1:
+            _eqs(mk, f"ptr({fmt} rho, {dims}, int {keep[0]})", qc.partial_trace(_sp(rho, fmt), dims, keep[0]), want)
+
+
+def _sptr_keeps(n):
+    keeps = list(ordered_subsets(n))
+    return keeps[::3] if len(keeps) > 20 else keeps
+
+
+@obligation(PROP, params=[{"fmt": f, "dims": d, "_tiers": ("quick", "thorough") if d in _SPTR_QUICK else ("thorough",)}
+                          for f in ("csr", "csc") for d in _SPTR_DIMS], exc_is_violation=True)
+def sparse_partial_trace(mk, fmt, dims):
+    """partial_trace of a sparse (csr / csc) density operator / ket == the dense reduced state
+    (subsystem dimensions >= 2, non-empty keep, every order)"""
+    mk.encodes(qc.partial_trace, qc._partial_trace_simple, qc._trace_keep, qc._trace_lose, qc.dim_compress, qc.trace,
+               qc._trace_sparse)
+    _sparse_ptr(mk, fmt, dims, _sptr_keeps(len(dims)))
+
+
+@obligation(PROP, params=[{"fmt": f, "dims": d, "_tiers": ("quick", "thorough") if d in ((2, 2), (2, 3, 2)) else ("thorough",)}
+                          for f in ("coo", "bsr") for d in ((2, 2), (2, 3), (2, 3, 2))], exc_is_violation=True)
+def sparse_partial_trace_coo_bsr(mk, fmt, dims):
+    """same for 'coo' and 'bsr' inputs (quimb registers `.ptr` on both matrix classes)"""
+    mk.encodes(qc.partial_trace, qc._partial_trace_simple, qc._trace_keep, qc._trace_lose)
+    _sparse_ptr(mk, fmt, dims, _sptr_keeps(len(dims)))
+
+
+@obligation(PROP, params=[{"fmt": f, "dims": d} for f in ("csr", "csc") for d in ((2, 1), (1, 2), (2, 1, 2), (1, 2, 2), (2, 2, 1))],
+            exc_is_violation=True)
+def sparse_partial_trace_unit_dims(mk, fmt, dims):
+    """same with size-1 subsystems among the dims"""
+    mk.encodes(qc.partial_trace, qc._partial_trace_simple, qc.dim_compress, qc._dim_compressor)
+    _sparse_ptr(mk, fmt, dims, list(ordered_subsets(len(dims))), ket=False)
+
+
+@obligation(PROP, params=[{"fmt": f, "dims": d} for f in ("csr", "csc") for d in ((2, 2), (2, 3, 2))], exc_is_violation=True)
+def sparse_partial_trace_empty_keep(mk, fmt, dims):
+    """keep=() (trace out everything): dense returns [[Tr rho]]"""
+    mk.encodes(qc.partial_trace, qc._partial_trace_simple, qc.dim_compress, qc._dim_compressor)
+    _sparse_ptr(mk, fmt, dims, [()])
+
+
+# ====================================================================== Hamiltonian builders
+
+def _coef(mk, name, val):
+    return val if mk.sym else mk.scalar(name, "real")
+
+
+def _ham_cases():
+    out = []
+    for n, tiers in ((3, ("quick", "thorough")), (4, ("thorough",))):
+        for b in ("heis", "heis_b", "heis_cyc", "ising", "xy", "xxz", "j1j2", "j1j2_cyc", "mbl"):
+            out.append({"builder": b, "n": n, "_tiers": tiers})
+    out.append({"builder": "heis_b", "n": 2, "_tiers": ("quick", "thorough")})
+    out.append({"builder": "heis2d_2x2", "n": 4, "_tiers": ("quick", "thorough")})
+    out.append({"builder": "heis2d_cyc_2x2", "n": 4, "_tiers": ("thorough",)})
+    out.append({"builder": "heis2d_1x3", "n": 3, "_tiers": ("quick", "thorough")})
+    out.append({"builder": "heis_b", "n": 5, "_tiers": ("thorough",)})
+    out.append({"builder": "j1j2_cyc", "n": 5, "_tiers": ("thorough",)})
+    return out
+
+
+def _ham_call(mk, builder, n):
+    j = (_coef(mk, "jx", 1.0), _coef(mk, "jy", 0.5), _coef(mk, "jz", -0.75))
+    b = (_coef(mk, "bx", 0.25), _coef(mk, "by", -0.5), _coef(mk, "bz", 0.125))
+    if builder == "heis":
+        return qops.ham_heis, (n,), dict(j=j)
+    if builder == "heis_b":
+        return qops.ham_heis, (n,), dict(j=j, b=b)
+    if builder == "heis_cyc":
+        return qops.ham_heis, (n,), dict(j=j, b=b[2], cyclic=True)
+    if builder == "ising":
+        return qops.ham_ising, (n,), dict(jz=j[2], bx=b[0])
+    if builder == "xy":
+        return qops.ham_XY, (n, j[0], b[2]), {}
+    if builder == "xxz":
+        return qops.ham_XXZ, (n, j[2]), dict(jxy=j[0])
+    if builder == "j1j2":
+        return qops.ham_j1j2, (n,), dict(j1=j[0], j2=j[1], bz=b[2])
+    if builder == "j1j2_cyc":
+        return qops.ham_j1j2, (n,), dict(j1=j[0], j2=j[1], bz=b[2], cyclic=True)
+    if builder == "mbl":
+        return qops.ham_mbl, (n, 0.5), dict(j=j, bz=b[2], seed=7, dh_dim=3)
+    if builder.startswith("heis2d"):
+        r, c = (int(x) for x in builder.rsplit("_", 1)[1].split("x"))
+        return qops.ham_heis_2D, (r, c), dict(j=j, bz=b[2], cyclic="cyc" in builder)
+    raise KeyError(builder)
+
+
+@obligation(PROP, params=_ham_cases(), exc_is_violation=True, max_paths=6000, wall_s=700, timeout_s=900)
+def ham_ownership_rows(mk, builder, n):
+    """ham_*(..., ownership=(ri, rf)) == rows [ri, rf) of the full Hamiltonian, dense and sparse
+    output, for every feasible range (ri, rf symbolic, concretised per path by the solver)"""
+    mk.encodes(qops.ham_heis, qops.ham_j1j2, qops.ham_mbl, qops.ham_heis_2D, qops.hamiltonian_builder, qc.ikron, qc.kron)
+    fn, args, kw = _ham_call(mk, builder, n)
+    D = 2 ** n
+    ri, rf = _draw_range(mk, D)
+    a, b = int(ri), int(rf)
+    full = _dense(fn(*args, **kw))
+    _same(mk, "full shape", tuple(full.shape), (D, D))
+    got = fn(*args, ownership=(a, b), **kw)
+    _eqs(mk, f"{builder}(n={n}, ownership=({a},{b})) dense", got, full[a:b, :])
+    got = fn(*args, ownership=(a, b), sparse=True, **kw)
+    _same(mk, "sparse output", sp.issparse(got), True)
+    _eqs(mk, f"{builder}(n={n}, ownership=({a},{b})) sparse", got, full[a:b, :])
+    fs = fn(*args, sparse=True, stype="csc", **kw)
+    _same(mk, "stype honoured", fs.format, "csc")
+    mk.eq(f"{builder}(n={n}) sparse csc == dense", _dense(fs), full)
